@@ -286,7 +286,11 @@ class Runner:
                     body["request"] = w.wire(obj)
                 out, urn, proc = w.push(pusher, body)
                 stored = w.stored(urn) if urn else None
-                left = (w.ctx.par_db[urn]["__par_expires_at"] - self.clock.now) if urn and urn in w.ctx.par_db else 0
+                # remaining lifetime as stored; a stored request WITHOUT expiry marker never expires: recorded as 10**9
+                left = 0
+                if urn and urn in w.ctx.par_db:
+                    _exp = w.ctx.par_db[urn].get("__par_expires_at")
+                    left = (_exp - self.clock.now) if isinstance(_exp, int) else 10 ** 9
                 ob = {"t": "push", "out": out, "proc": proc, "stored": stored, "left": left, "keys": sorted(w.ctx.par_db.keys())}
                 full = ("push", pusher, body, obj, urn)
                 trace.append((full, ob))
@@ -680,9 +684,10 @@ def gen_par(R, rng, quick):
                     continue          # nothing is ever pushed: only the short words are kept
                 i += 1
                 R.run_case("par", (oidc, "all", True, 10), {}, {}, par_ops_from_word(word, "w%d" % i), note="par word " + word)
-        # signed pushed objects in the exhaustive part (quick tier): a smaller alphabet
+        # pushes that CONTAIN a signed request object, redeemed before / at / after the announced lifetime
+        # (Q L | Q T L | Q T U L ...), exhaustive over a smaller alphabet in the quick tier
         if quick:
-            for ln in range(1, 4):
+            for ln in range(1, 5):
                 for word in itertools.product("QLTU", repeat=ln):
                     i += 1
                     R.run_case("par", (oidc, "pub", True, 10), {}, {}, par_ops_from_word("".join(word), "q%d" % i), note="par word " + "".join(word))
